@@ -10,6 +10,10 @@ Contract on the real `pytezos.michelson.macros.expand_macro` and, through its di
               FAILWITH Unit — that specs/C19_macros.py:meaning prescribes; two untouched tokens below check the frame
     ensures.parametric  apart from the caller's code arguments the expansion uses only polymorphic stack / pair /
               option / union / compare instructions, so the one symbolic run stands for every input stack of that shape
+    ensures.documented_expansion  the expansion has the same effect as the expansion rule printed in the documentation
+              (specs/C19_macros.py: documented_expansion), also when code bodies reach BELOW their operand: bodies consuming
+              1, 2, 3 slots and producing 1 (f(x1..xk) = Some (Pair x1..xk)), consuming 1 and producing 2, on stacks with
+              opaque slots underneath — for MAP_C[AD]+R, DII+P, IF{op}, IFCMP{op}, IF_SOME, IF_RIGHT, and SET_C[AD]+R
     ensures.unpair_inverts_pair / pair_inverts_unpair   P<tree>R ; UNP<tree>R and UNP<tree>R ; P<tree>R are identities
     safety.expands    with a documented annotation list the call does not raise; other annotation lists may be refused
               but, if accepted, must not change the meaning
@@ -44,6 +48,8 @@ def replay(case):
         f = K.check_inverse(mac.expand_macro, name)
     elif 'arity' in case:
         f = [x for x in K.check_arity(mac.expand_macro, name) if x[3].get('arity') == case['arity']]
+    elif case.get('documented'):
+        f, _ = K.check_documented(mac.expand_macro, name)
     elif case.get('parser'):
         from pytezos.michelson.parse import michelson_to_micheline as m2m
         f = K.check_parser(m2m, mac.expand_macro, name)
@@ -114,13 +120,18 @@ def run(ck: Check) -> int:
     ck.trust('specs/C19_macros.py, specs/michelson_ref.py, bounded/C19_cases.py (regex enumeration via re._parser, checked against the regex itself)')
     ck.rule('case = macro name x annotation list x input stack (x code arguments); class = macro kind + name length + annotation variant; '
             'names: every string accepted by a registered regex up to max_name_length + every name of the documented grammar up to the same length')
-    names = {}
+    leaves, depth = (7, 6) if ck.thorough() else (6, 5)
+    ck.bound('pair_tree_leaves', f'all P<tree>R / UNP<tree>R shapes with up to {leaves} leaves, whatever their length')
+    ck.bound('path_depth', f'all C/SET_C/MAP_C[AD]+R paths up to depth {depth}')
+    cand = set()
     for rx, h in mac.macros:
-        for n in K.names_of(rx, K.family_bound(rx, L, slack)):
-            names.setdefault(n, []).append(h.__name__)
-    n_regex_names = len(names)
-    for n in spec_names(L, slack):
-        names.setdefault(n, [])
+        cand |= set(K.names_of(rx, K.family_bound(rx, L, slack)))
+    n_regex_names = len(cand)
+    cand |= spec_names(L, slack)
+    for t in M.tree_names(leaves):
+        cand |= {t, 'UN' + t}
+    cand |= set(M.path_names(depth))
+    names = {n: [h.__name__ for rx, h in mac.macros if rx.findall(n)] for n in cand}
     n_valid = n_invalid = n_runs = 0
     for name in sorted(names, key=lambda s: (len(s), s)):
         if name in prim_tags:
@@ -145,6 +156,11 @@ def run(ck: Check) -> int:
                 n_runs += n
                 findings += K.check_arity(mac.expand_macro, name)
                 findings += K.check_parser(m2m, mac.expand_macro, name)
+                f, n = K.check_documented(mac.expand_macro, name)
+                if any(x[0] == 'harness' for x in f):
+                    raise RuntimeError(f)
+                findings += f
+                n_runs += 2 * n
                 if kind == 'pair' and 'UN' + name in names:
                     findings += K.check_inverse(mac.expand_macro, name)
                     n_runs += 2
